@@ -157,10 +157,14 @@ func checkPosition(in buildInput, be *scriggo.BuildError) (sig, desc string) {
 	ln, cl := linecol(src, pos.Start)
 	if ln != pos.Line || cl != pos.Column {
 		cls := ""
+		// a byte order mark at the start of a program takes no column: first line, one column less
+		if strings.HasPrefix(src, "\xef\xbb\xbf") && strings.HasSuffix(path, ".go") && ln == 1 && pos.Line == 1 && cl == pos.Column+1 {
+			cls = "program-bom-takes-no-column"
+		}
 		// the line and column of the position of a call, index, selector or binary
 		// expression are those of its operator token, its offsets those of the
 		// whole expression: the line and column then lie inside [Start, End]
-		for off := pos.Start + 1; off <= pos.End && off <= len(src); off++ {
+		for off := pos.Start + 1; cls == "" && off <= pos.End && off <= len(src); off++ {
 			if l2, c2 := linecol(src, off); l2 == pos.Line && c2 == pos.Column {
 				cls = "operator-inside-node"
 				break
@@ -204,6 +208,8 @@ func posClass(src, path, msg string) string {
 		return "go-block-comment"
 	case strings.Contains(src, "//") && !md:
 		return "go-line-comment"
+	case strings.HasPrefix(src, "\xef\xbb\xbf") && strings.HasSuffix(path, ".go"):
+		return "program-bom-takes-no-column"
 	case strings.HasPrefix(src, "#!") && !strings.Contains(src, "\n"):
 		return "shebang-without-newline"
 	case strings.Contains(src, "\n\r"):
@@ -477,6 +483,8 @@ func sweepInputs(c *Ctx) []buildInput {
 			ins = append(ins, tmplInput("index"+extOfFormat[fm], s, false))
 		}
 	}
+	// known finding linecol:program-bom-takes-no-column: a byte order mark at the start of a program
+	ins = append(ins, buildInput{Kind: "program", Files: map[string]string{"main.go": Hx("\xef\xbb\xbfpackage main; func main() { undefinedName() }\n"), "go.mod": Hx("module main\n")}})
 	// every prefix of every end tag spelling of a script or style element, in code and inside
 	// string literals, comments and JSON: the source ends exactly at "</script", "</styl", ...
 	for _, body := range []string{"var a = 1;", "var a = \"x", "var a = 'x", "// c ", "/* c ", "{\"k\": \"v"} {
